@@ -519,25 +519,39 @@ def _ie_matches(ie, exp, extra_trig=0):
             and ie["end"] == exp["end"] and ie["vol"] == exp["vol"] and ie["dur"] == exp["dur"])
 
 
-def _profile_apply(prof, lid, ops, held):
-    """what the SMF configured, tracked from the requests alone (Create URR, then Update URR, the handlers' order):
-    measurement method bits DURAT=1 VOLUM=2 EVENT=4, measurement information MNOP=0x10"""
+def _profile_apply(prof, lid, ops, held, drv=None):
+    """what the SMF configured, tracked from the requests alone (Create URR, then Remove, then Update URR: the handlers'
+    order): measurement method bits DURAT=1 VOLUM=2 EVENT=4, measurement information MNOP=0x10.  A Create URR for a URR
+    the session holds which the data plane rejects (it has the rule) changes nothing; a removed URR is no longer tracked."""
     touched = set()
+    held = set(held)
+    results = [c["ok"] for c in (drv or []) if c["op"] == "create" and c["kind"] == "urr"]
+    k = 0
     for u in ops.get("cURR", []) or []:
         if u.get("id") is None:
             continue
+        ok = results[k] if k < len(results) else True
+        k += 1
+        if u["id"] in held and not ok and (lid, u["id"]) in prof:
+            continue        # duplicate Create URR, rejected by the data plane: the running URR keeps its profile
         m, inf = u.get("method") or 0, u.get("info") or 0
         prof[(lid, u["id"])] = {"durat": bool(m & 1), "volum": bool(m & 2), "event": bool(m & 4), "mnop": bool(inf & 0x10)}
         touched.add(u["id"])
+        held.add(u["id"])
+    for i in ops.get("rURR", []) or []:
+        if i is not None and i in held:
+            prof.pop((lid, i), None)
+            held.discard(i)
+            touched.add(i)
     for u in ops.get("uURR", []) or []:
-        k = (lid, u.get("id"))
-        if u.get("id") is None or (k not in prof) or (u["id"] not in held and u["id"] not in touched):
+        k_ = (lid, u.get("id"))
+        if u.get("id") is None or (k_ not in prof) or u["id"] not in held:
             continue
         if u.get("method") is not None:
             m = u["method"]
-            prof[k] = dict(prof[k], durat=bool(m & 1), volum=bool(m & 2), event=bool(m & 4))
+            prof[k_] = dict(prof[k_], durat=bool(m & 1), volum=bool(m & 2), event=bool(m & 4))
         if u.get("info") is not None:
-            prof[k] = dict(prof[k], mnop=bool(u["info"] & 0x10))
+            prof[k_] = dict(prof[k_], mnop=bool(u["info"] & 0x10))
         touched.add(u["id"])
     return touched
 
@@ -588,7 +602,7 @@ def mon_c10(case, obs, prefix):
                 if sl is not None and live(prev, sl["lid"]) is None:
                     for k in [k for k in prof if k[0] == sl["lid"]]:
                         del prof[k]
-                    _profile_apply(prof, sl["lid"], ev["msg"].get("ops") or {}, set())
+                    _profile_apply(prof, sl["lid"], ev["msg"].get("ops") or {}, set(), o["drv"])
         elif ev["t"] == "recv" and not dup and ev["msg"]["k"] in ("mod", "del"):
             # every IE in the response stems from a report the data plane returned during this request, values intact
             s = live(prev, ev["msg"]["seid"])
@@ -597,8 +611,9 @@ def mon_c10(case, obs, prefix):
                 continue
             lid = ev["msg"]["seid"]
             touched = set()
-            if ev["msg"]["k"] == "mod":
-                touched = _profile_apply(prof, lid, ev["msg"].get("ops") or {}, set(_sess_urrs(s)))
+            if ev["msg"]["k"] == "mod" and any(x["type"] == "modrsp" and x["cause"] == 1 for x in sends):
+                touched = _profile_apply(prof, lid, ev["msg"].get("ops") or {},
+                                         {u for u, x in _sess_urrs(s).items() if not x.get("removed")}, o["drv"])
             scripted = [r for u in ev.get("usage", []) for r in u["rpts"]]
             profiles = dict(_sess_urrs(s))
             profiles.update(_sess_urrs(snow))
@@ -655,6 +670,7 @@ def mon_c11(case, obs, prefix):
                     if ie["urr"] in created and (ie["urr"] not in before or before[ie["urr"]].get("removed")):
                         nxt[k] = 0
                         created.discard(ie["urr"])
+                        ended.pop(k, None)          # the new life has begun (and has reported) within this very response
                     want = nxt.get(k, 0)
                     if ended.get(k) and ie["urr"] not in created:
                         # report for a URR whose removal produced no final report (its entry lingers, marked removed): the
@@ -728,8 +744,9 @@ def mon_c12(case, obs, prefix):
                 lids = [sl["lid"] for sl in (d["slots"] or []) if sl is not None and live(prev, sl["lid"]) is None]
                 for l in lids:
                     have[l] = set()
-            elif live(prev, ev["msg"]["seid"]) is not None and live(d, ev["msg"]["seid"]) is not None:
-                lids = [ev["msg"]["seid"]]
+            elif live(prev, ev["msg"]["seid"]) is not None and live(d, ev["msg"]["seid"]) is not None and \
+                    any(x["type"] == "modrsp" and x["cause"] == 1 for x in (o["sends"] or [])):
+                lids = [ev["msg"]["seid"]]      # the request was executed (an undecodable Node ID, e.g., makes the handler drop it)
             for l in lids:
                 cur = have.setdefault(l, set())
                 for u in ops_.get("cURR", []) or []:
@@ -962,7 +979,7 @@ def _usa(seid, urr, val):
 
 
 def directed_c11(rnd):
-    """finding create-urr-existing-id"""
+    """the history of the former finding create-urr-existing-id (fixed): a regression case run first"""
     return [{"maxretrans": 0, "txseq0": 0, "events": [
         _rc(0, 1, {"k": "asr", "nid": {"v": 0}}),
         _rc(0, 2, {"k": "est", "nid": {"v": 0}, "fseid": {"v": 10}, "ops": {"cURR": [{"id": 1, "method": 2, "info": 0}]}}),
@@ -972,7 +989,7 @@ def directed_c11(rnd):
 
 
 def directed_c12(rnd):
-    """finding create-pdr-existing-id"""
+    """the history of the former finding create-pdr-existing-id (fixed): a regression case run first"""
     return [{"maxretrans": 0, "txseq0": 0, "events": [
         _rc(0, 1, {"k": "asr", "nid": {"v": 0}}),
         _rc(0, 2, {"k": "est", "nid": {"v": 0}, "fseid": {"v": 10},
